@@ -22,7 +22,8 @@ type keySpec struct {
 	Kid     rc.Hex         `json:"kid,omitempty"`
 	BaseIV  rc.Hex         `json:"base_iv,omitempty"`
 	Extra   []rc.KV        `json:"extra,omitempty"`
-	Trim    bool           `json:"trim,omitempty"` // emit x / y without their leading zero bytes (a peer that trims)
+	Trim    bool           `json:"trim,omitempty"`  // emit x / y without their leading zero bytes (a peer that trims)
+	Shape   int            `json:"shape,omitempty"` // EC2: 0 x,y(,d); 1 d only; 2 x only (y absent); 3 y as bool (compressed point, RFC 9053 7.1.1)
 	SymK    rc.Hex         `json:"k,omitempty"`
 }
 
@@ -61,9 +62,19 @@ func (k *keySpec) val() rc.Val {
 			x, y = trimZeros(x), trimZeros(y)
 		}
 		add(-1, rc.Int(crvOf(k.Mat)))
-		add(-2, rc.Bytes(x))
-		add(-3, rc.Bytes(y))
-		if k.Private {
+		switch k.Shape {
+		case 1:
+			add(-4, rc.Bytes(d))
+		case 2:
+			add(-2, rc.Bytes(x))
+		case 3:
+			add(-2, rc.Bytes(x))
+			add(-3, rc.Bool(y[len(y)-1]&1 == 1))
+		default:
+			add(-2, rc.Bytes(x))
+			add(-3, rc.Bytes(y))
+		}
+		if k.Private && k.Shape != 1 {
 			add(-4, rc.Bytes(d))
 		}
 	case 1:
@@ -112,6 +123,9 @@ func genKeySpec(t *rapid.T) keySpec {
 		alg := rapid.SampledFrom([]int64{refcose.AlgES256, refcose.AlgES256, refcose.AlgES384, refcose.AlgES512}).Draw(t, "ecalg")
 		k.Mat = gen.KeyMat(t, alg)
 		k.Trim = rapid.IntRange(0, 3).Draw(t, "trim") == 0
+		if rapid.IntRange(0, 4).Draw(t, "odd-shape") == 0 {
+			k.Shape = rapid.IntRange(1, 3).Draw(t, "shape")
+		}
 	}
 	k.Private = rapid.Bool().Draw(t, "private")
 	k.WithAlg = rapid.Bool().Draw(t, "withalg")
